@@ -53,6 +53,14 @@ class HarnessError(Exception):
     pass
 
 
+class OutputError(Exception):
+    """raised by helpers when a file *written by the code under test* cannot be parsed: a violation, not a harness error"""
+
+    def __init__(self, signature, message):
+        super().__init__(message)
+        self.signature = signature
+
+
 class Ctx:
     """Per-shard accounting; per-case state reset by begin()."""
 
@@ -140,9 +148,17 @@ def run_case(part, case, ctx, guard_path=None):
         part.run(case, ctx)
     except HarnessError:
         raise
+    except OutputError as e:
+        ctx.violation(e.signature, str(e))
     except Exception as e:  # noqa
         fs = _whatshap_frame(e.__traceback__)
         if fs is None and not getattr(part, "all_exceptions_are_crashes", False):
+            try:
+                os.makedirs(os.path.join(VERIF, "out"), exist_ok=True)
+                with open(os.path.join(VERIF, "out", "harness_error_case.json"), "w") as f:
+                    json.dump({"part": part.name, "case": case}, f)
+            except Exception:
+                pass
             raise HarnessError("exception outside whatshap while running %s/%s:\n%s\ncase=%s" % (
                 part.name, type(e).__name__, traceback.format_exc(), json.dumps(case)[:3000]))
         where = "%s:%s" % (os.path.basename(fs.filename), fs.name) if fs else "?"
@@ -621,4 +637,6 @@ def main(argv=None):
 
 
 if __name__ == "__main__":
-    sys.exit(main())
+    # run through the canonical module object so that exception classes are shared with importers
+    from vlib import harness as _canonical
+    sys.exit(_canonical.main())
